@@ -55,14 +55,17 @@ var errPageNames = []string{"errors/500", "errors/default", "about", "fail", "er
 
 var failingStmts = []string{"{{ 1 / z0 }}", "{{ undefinedAtFailurePoint }}", `{{ 7 + "seven" }}`, `{{ 7 % "x" }}`,
 	// the failing expression is a LATER element of a list / a later argument of a call
-	"{{ [1, 2, undefinedInList] }}", `{{ [7, 8].join("-", undefinedLaterArg) }}`, `{{ x9 = [true, 1 / z0] }}`}
+	"{{ [1, 2, undefinedInList] }}", `{{ [7, 8].join("-", undefinedLaterArg) }}`, `{{ x9 = [true, 1 / z0] }}`,
+	// an error message several hundred characters long
+	"{{ " + strings.Repeat("veryLongUndefinedIdentifier", 16) + " }}"}
 
 type c17Cell struct {
 	Page   string `json:"page"`
 	FP     int    `json:"fp"`   // -1 no failure, -2 template does not exist, -3 unconvertible data, -4 the custom error page itself requested with unconvertible data, -5 a page that assigns variables and fails, rendered without data, -6 a page that succeeds and shows text looking like an error
 	Kind   int    `json:"kind"` // failing statement kind
 	Debug  bool   `json:"debug"`
-	Custom string `json:"custom"` // "" valid failing missing
+	Custom string `json:"custom"`        // "" valid failing missing late
+	Reg    bool   `json:"reg,omitempty"` // custom=late: the function the error page calls is registered before this cell's load
 }
 
 func (c c17Cell) class() string {
@@ -83,6 +86,9 @@ func (c c17Cell) class() string {
 	cu := c.Custom
 	if cu == "" {
 		cu = "none"
+	}
+	if c.Reg {
+		cu += "+registered"
 	}
 	return fmt.Sprintf("debug=%v custom=%s outcome=%s", c.Debug, cu, out)
 }
@@ -111,8 +117,15 @@ func buildC17(t *Tree, cell c17Cell) *Scenario {
 		sc.Files = append(sc.Files, File{Path: t.path("errors/500"), Data: "<h1>CUSTOM_ERROR_PAGE</h1>{{ undefinedInErrorPage }}", Role: "errorpage"})
 	case "missing":
 		cfg.ErrPage = "errors/nope"
+	case "late":
+		// works only once the function it calls has been registered
+		cfg.ErrPage = "errors/late"
+		sc.Files = append(sc.Files, File{Path: t.path("errors/late"), Data: "<h1>CUSTOM_ERROR_PAGE</h1><p>{{ \"sorry\".c17late(1) }}</p>", Role: "errorpage"})
 	}
 	sc.Setup = []Op{{Kind: "newtemplate", Cfg: &cfg}}
+	if cell.Reg {
+		sc.Setup = []Op{{Kind: "register", Recv: "str", Name: "c17late", Fn: 3}, {Kind: "newtemplate", Cfg: &cfg}}
+	}
 	name := cell.Page
 	data := t.Data
 	if cell.FP == -2 {
@@ -155,6 +168,16 @@ func buildC17(t *Tree, cell c17Cell) *Scenario {
 
 type c17Fail struct{ clause, what, exp, got string }
 
+// c17Cfg returns the configuration a cell loads its templates with.
+func c17Cfg(sc *Scenario) *Cfg {
+	for _, op := range sc.Setup {
+		if op.Kind == "newtemplate" {
+			return op.Cfg
+		}
+	}
+	return nil
+}
+
 func containsEither(body, needle string) bool {
 	if needle == "" {
 		return false
@@ -171,7 +194,7 @@ func checkC17(sc *Scenario, acc *Acc) (*c17Fail, bool, bool) {
 		// choice no claimed property fixes. Either reading is accepted, but it must hold as a
 		// whole: the model is applied again under the configuration the older Template was
 		// loaded with.
-		if f2, _, bad2 := checkC17Cfg(sc, nil, sc.Prior[len(sc.Prior)-1].Setup[0].Cfg); !bad2 && f2 == nil {
+		if f2, _, bad2 := checkC17Cfg(sc, nil, c17Cfg(sc.Prior[len(sc.Prior)-1])); !bad2 && f2 == nil {
 			return nil, late, false
 		}
 	}
@@ -184,7 +207,7 @@ func checkC17Cfg(sc *Scenario, acc *Acc, cfgOverride *Cfg) (*c17Fail, bool, bool
 	// "a working custom error page": the configured page rendered alone, first, in a fresh state —
 	// not after the failing render, whose leftovers must not decide whether the page "works"
 	var cpRef *Obs
-	if c := sc.Setup[0].Cfg; c != nil && c.ErrPage != "" {
+	if c := c17Cfg(sc); c != nil && c.ErrPage != "" {
 		if fw, fok := setupWorld(sc); fok {
 			o := fw.RunOp(Op{Kind: "string", Name: c.ErrPage, Data: nil}, Budget)
 			cpRef = &o
@@ -220,7 +243,7 @@ func checkC17Cfg(sc *Scenario, acc *Acc, cfgOverride *Cfg) (*c17Fail, bool, bool
 	if !ok {
 		return nil, false, true
 	}
-	cfg := sc.Setup[0].Cfg
+	cfg := c17Cfg(sc)
 	if cfgOverride != nil {
 		cfg = cfgOverride
 	}
@@ -419,7 +442,7 @@ func (p c17) Run(seed uint64, run int, tier string, acc *Acc) *Violation {
 					if !seen[sig] {
 						seen[sig] = true
 						v := &Violation{Prop: "C17", Clause: f.clause, Sig: sig, Scenario: sc, Expected: f.exp, Got: f.got,
-							Detail: fmt.Sprintf("page %q, failure point %d (%s), config %+v", page, fp, failingStmts[kind], *sc.Setup[0].Cfg)}
+							Detail: fmt.Sprintf("page %q, failure point %d (%s), config %+v", page, fp, failingStmts[kind], *c17Cfg(sc))}
 						if first == nil {
 							first = v
 						} else {
@@ -488,16 +511,22 @@ func (p c17) Run(seed uint64, run int, tier string, acc *Acc) *Violation {
 	// chained pass: per custom-page kind (that field is sticky across NewTemplate calls by
 	// design), the cells run one after another in ONE process without reset; each cell is
 	// judged by the same model. Catches anything remembered across renders or loads.
-	for _, custom := range []string{"", "valid", "failing", "missing"} {
+	for _, custom := range []string{"", "valid", "failing", "missing", "late"} {
 		var chain []*Scenario
 		n := 0
 		for fp := nfp - 1; fp >= -6; fp-- {
 			for _, debug := range []bool{true, false} {
 				n++
-				if n > 10 {
+				if n > 10 || (custom == "late" && n > 4) {
 					break
 				}
 				cell := c17Cell{Page: page, FP: fp, Kind: (fp + 7) % len(failingStmts), Debug: debug, Custom: custom}
+				if custom == "late" {
+					// the error page fails in the first cells (its function does not exist yet); the
+					// function is registered before the last one, which must then show the custom page
+					cell.Debug = false
+					cell.Reg = n == 4
+				}
 				sc := buildC17(t, cell)
 				sc.Seed, sc.Run = seed, run
 				sc.Family = "chained-cell"
@@ -520,7 +549,7 @@ func (p c17) Run(seed uint64, run int, tier string, acc *Acc) *Violation {
 							}
 						}
 						v := &Violation{Prop: "C17", Clause: f.clause + " (after earlier renders in the same process)", Sig: sig, Scenario: sc, Expected: f.exp, Got: f.got,
-							Detail: fmt.Sprintf("page %q, failure point %d, config %+v, after %d earlier cell(s)", page, fp, *sc.Setup[0].Cfg, len(sc.Prior))}
+							Detail: fmt.Sprintf("page %q, failure point %d, config %+v, after %d earlier cell(s)", page, fp, *c17Cfg(sc), len(sc.Prior))}
 						if first == nil {
 							first = v
 						} else {
@@ -543,7 +572,7 @@ func (p c17) Run(seed uint64, run int, tier string, acc *Acc) *Violation {
 						if !seen[sig] {
 							seen[sig] = true
 							v := &Violation{Prop: "C17", Clause: f.clause + " (an older Template value used after a newer NewTemplate)", Sig: sig, Scenario: st, Expected: f.exp, Got: f.got,
-								Detail: fmt.Sprintf("page %q, current config %+v", page, *st.Setup[0].Cfg)}
+								Detail: fmt.Sprintf("page %q, current config %+v", page, *c17Cfg(st))}
 							if first == nil {
 								first = v
 							} else {
